@@ -11,7 +11,7 @@
    Fragment: no yield_to (see notes/design/C01.md). *)
 From Coq Require Import List NArith.
 From Pika Require Import Base.Conc Gen.GenEnums Model.Sched Proofs.SchedProofs Proofs.SchedWakeProofs
-  Proofs.SchedRecycleProofs.
+  Proofs.SchedRecycleProofs Proofs.SchedDeltaProofs Proofs.SchedAbortProofs Proofs.SchedAcceptProofs.
 Import ListNotations.
 
 (* at most one worker is between a successful pending->active CAS and the matching store for
@@ -131,6 +131,29 @@ Theorem C01_sched_waker_in_flight_stale_refuted :
     sub_of (snd c3 a) = SEnq x.
 Proof. exact waker_in_flight_stale_refuted. Qed.
 Print Assumptions C01_sched_waker_in_flight_stale_refuted.
+
+(* acceptor completeness: for every schedule and every incarnation i, the extracted acceptor
+   `accepts` (the function the harness compares the real runtime's per-incarnation chains against)
+   accepts the chain of state-word transitions that the model's own log contains for i —
+   chain_of i (log g) is exactly the projection the harness builds from hooks 101..104 — and the
+   number of pending->active transitions of that chain equals the number of body entries of i in
+   the log (`acts=` of the harness line).  So the acceptor never rejects a behaviour of the
+   proved model: no false alarm can come from the acceptor itself. *)
+Theorem C01_accepts_complete : forall sched ext i,
+  let g := fst (sched_run sched ext) in
+  accepts (chain_of i (log g)) = true /\
+  activations (chain_of i (log g)) = enters_of i (log g).
+Proof. exact accepts_complete. Qed.
+Print Assumptions C01_accepts_complete.
+
+(* and the accepted chain is the whole history of the word: it ends at the current word of the
+   object the incarnation is bound to; an incarnation not yet created has the empty chain *)
+Theorem C01_chain_exact : forall sched ext,
+  let g := fst (sched_run sched ext) in
+  (forall x, x < ntasks g -> chain_end w_init (chain_of (gid g x) (log g)) = tw_of g x) /\
+  (forall i, ninc g <= i -> chain_of i (log g) = []).
+Proof. exact chain_exact. Qed.
+Print Assumptions C01_chain_exact.
 
 (* ------------------------------------------------------------------ non-vacuity *)
 (* one external submitter (thread 0), workers 1 and 2; the root task yields once, spawns a staged
